@@ -44,6 +44,10 @@ pub struct ProcPart {
     /// generation: r3 must still equal r1 up to the printed precision.
     #[serde(default)]
     pub second_generation: bool,
+    /// Before incarnation 1, an identical earlier run wrote the same outputs and more lines were appended to
+    /// them: the files at the output paths begin with exactly what is going to be written.
+    #[serde(default)]
+    pub stale_is_longer_version: bool,
 }
 
 #[derive(Clone, Debug, Serialize, Deserialize)]
@@ -456,6 +460,19 @@ fn process_world(ctx: &Ctx, scn: &Scn, pp: &ProcPart, ex: &mut Exec, fp: &mut Fn
         }
         o
     };
+    if pp.stale_is_longer_version && !pp.in_place {
+        // the earlier, identical run (same entropy seed, so byte-identical outputs), then a tail appended
+        let o0 = run(&Incarnation { argv: argv1.clone(), entropy: pp.entropy1, plan: Vec::new(), debug_build: false }, ex, fp);
+        if o0.exit == Some(0) {
+            for name in [oc, of, "r1.json"] {
+                if let Some(mut bytes) = disk.read(name) {
+                    bytes.extend_from_slice(b"\nSTALE-BYTES-OF-AN-EARLIER-RUN: tail of a longer earlier output\n");
+                    disk.write(name, &bytes);
+                }
+            }
+            ex.count("stale_files_that_begin_with_the_new_content", 1);
+        }
+    }
     if let Some(k) = pp.crash_first {
         let inc = Incarnation { argv: argv1.clone(), entropy: pp.crash_entropy, plan: vec![PlanEntry { idx: k, kind: PlanKind::Crash }], debug_build: false };
         let o = run(&inc, ex, fp);
@@ -772,6 +789,7 @@ impl Property for C18 {
                 pass_kexp: o.chance(0.7),
                 in_place: o.chance(0.15),
                 second_generation: o.chance(0.2),
+                stale_is_longer_version: o.chance(0.15),
             })
         } else {
             None
@@ -885,6 +903,11 @@ impl Property for C18 {
             if pp.second_generation {
                 let mut n = scn.clone();
                 n.proc_part.as_mut().unwrap().second_generation = false;
+                out.push(n);
+            }
+            if pp.stale_is_longer_version {
+                let mut n = scn.clone();
+                n.proc_part.as_mut().unwrap().stale_is_longer_version = false;
                 out.push(n);
             }
             for (a, k) in [(false, pp.pass_kexp), (pp.pass_area, false)] {
